@@ -85,6 +85,9 @@ public:
 
     base_array(const const_slice_t<T>& rhs)
       : base_array(rhs.size()) {
+        if (rhs.size() == 0) {
+            return;
+        }
         this->slice(0, indexing::end) = rhs;
     }
 
